@@ -194,6 +194,27 @@ theorem C20_compareNatural (a b c : List UInt8) (ha : Bytes.noOverflow a = true)
   exact ⟨_, _, _, _, cmpNat_eq_key a b ha hb, cmpNat_eq_key b a hb ha, cmpNat_eq_key b c hb hc,
     cmpNat_eq_key a c ha hc, h1, h2, h3, h4⟩
 
+/-- two digit runs have the same numeric value iff they are equal after their leading zeros -/
+theorem digit_runs_value_iff (r1 r2 : List UInt8) (h1 : ∀ b ∈ r1, Bytes.isDigit b = true)
+    (h2 : ∀ b ∈ r2, Bytes.isDigit b = true) :
+    Bytes.decVal r1 = Bytes.decVal r2 ↔ NatCmp.strip r1 = NatCmp.strip r2 :=
+  NatCmp.decVal_eq_iff r1 r2 h1 h2
+
+/-- **zero exactly for strings equal up to leading zeros of digit runs**: `NatCmp.zkey` is the same
+tokenisation into maximal runs in which a digit run is kept as its digits with the leading
+zeros dropped (`NatCmp.strip`), nothing else is changed -/
+theorem C20_natcmp_zero_iff (a b : List UInt8) :
+    Bytes.natCompare a b = 0 ↔ NatCmp.zkey a = NatCmp.zkey b :=
+  (NatOrder.key_zero _ _).trans (NatCmp.key_eq_iff_zkey a b)
+
+theorem C20_compareNatural_zero_iff (a b : List UInt8) (ha : Bytes.noOverflow a = true)
+    (hb : Bytes.noOverflow b = true) :
+    Mstr.compareNatural a b = some 0 ↔ NatCmp.zkey a = NatCmp.zkey b := by
+  rw [cmpNat_eq_key a b ha hb, Option.some.injEq]; exact C20_natcmp_zero_iff a b
+
+example : NatCmp.zkey [0x61, 0x30, 0x30, 0x37, 0x2e, 0x30, 0x30] = [.str [0x61], .dig [0x37], .str [0x2e], .dig []] := by decide
+example : NatCmp.zkey [0x61, 0x30, 0x30, 0x37, 0x2e, 0x30, 0x30] = NatCmp.zkey [0x61, 0x37, 0x2e, 0x30] := by decide
+
 /-! non-vacuity: "a2b" < "a12b" (numeric), "a007" = "a7" ≠ "a70", digit against letter by first byte,
 and the no-overflow hypothesis is needed: 2^64 wraps to 0 -/
 example : Mstr.compareNatural [0x61, 0x32, 0x62] [0x61, 0x31, 0x32, 0x62] = some (-1) := by decide
